@@ -15,12 +15,14 @@ From SCC Require Import Model.RunFmt.
 From SCC Require Import Model.RunHeapOps.
 From SCC Require Import Model.RunC01.
 From SCC Require Import Model.RunRobust.
+From SCC Require Import Model.RunWtStages.
 Open Scope string_scope.
 
 Definition dispatch (cmd : string) (input : string) : string :=
   match cmd with
   | "pm" => run_pm input
   | "c01" => run_c01 input
+  | "wt-stages" => run_wtstages input
   | "relay" => run_relay input
   | "lin" => run_lin input
   | "codegen-x86" => run_codegen_x86 input
